@@ -212,7 +212,7 @@ func generate(p *Prog, prop string, cover bool) *RunResult {
 			rr.Unbound = append(rr.Unbound, k)
 			continue
 		}
-		if prop != "" && !relevant(p, fc, prop) && !touchesProtected(p, fn, prop) {
+		if prop != "" && !relevant(p, fc, prop) && !touchesProtected(p, fn, prop) && !callsTaggedPre(p, fn, prop) {
 			continue
 		}
 		if fc.Trusted {
@@ -509,6 +509,10 @@ func (e *Exec) predeclareSiteWitnesses(st *State) {
 			if call == nil {
 				continue
 			}
+			if g, isGhost := st.ghost[id.Name]; isGhost {
+				e.siteVars[w.Name] = e.freshVal("w_"+w.Name+"_unreached", g.T, g.K)
+				continue
+			}
 			var t types.Type
 			res := call.Common().Signature().Results()
 			switch {
@@ -535,4 +539,29 @@ func (e *Exec) predeclareSiteWitnesses(st *State) {
 			e.siteVars[w.Name] = v
 		}
 	}
+}
+
+// callsTaggedPre: fn calls (statically) a function whose contract has a
+// precondition tagged with prop — the obligation arises at fn's call site.
+func callsTaggedPre(p *Prog, fn *ssa.Function, prop string) bool {
+	for _, b := range fn.Blocks {
+		for _, in := range b.Instrs {
+			ci, ok := in.(ssa.CallInstruction)
+			if !ok {
+				continue
+			}
+			callee := ci.Common().StaticCallee()
+			if callee == nil || !inModule(callee) {
+				continue
+			}
+			if fc := p.contractFor(callee); fc != nil {
+				for _, r := range fc.Requires {
+					if contains(r.Tags, prop) {
+						return true
+					}
+				}
+			}
+		}
+	}
+	return false
 }
